@@ -207,7 +207,12 @@ def build_template(sc, rec, chart=None):
     rnd = random.Random(sc.get('order_seed', 0))
     regs = [(s, sg, cb) for s in range(n) for sg, cb in table[s]]
     rnd.shuffle(regs)
+    late = sc.get('late')
+    chart._c17_late = []
     for s, sg, cb in regs:
+        if late and [s, sg] == late['where']:
+            chart._c17_late.append((ns['st%d' % s], getattr(signals, sg), cb))     # registered after some events ran
+            continue
         chart.register_signal_callback(ns['st%d' % s], getattr(signals, sg), cb)
     order = list(range(n))
     rnd.shuffle(order)
@@ -316,7 +321,10 @@ def run_build(sc, which):
         return steps, texts
     chart.start_at(ns[names[sc['start']]])
     steps.append({'actions': rec.actions[:], 'offers': [], 'cur': cur()})
-    for sg in sc['events']:
+    for k, sg in enumerate(sc['events']):
+        if sc.get('late') and k == sc['late']['after'] and which == 'template':
+            for st_fn, signum, cb in chart._c17_late:
+                chart.register_signal_callback(st_fn, signum, cb)
         a0, o0 = len(rec.actions), len(rec.offers)
         chart.dispatch(Event(signal=sg))
         steps.append({'actions': rec.actions[a0:], 'offers': rec.offers[o0:], 'cur': cur()})
@@ -338,7 +346,15 @@ def reference(sc):
         return out
     cur, log = charts.expected_start(sc)
     steps = [{'actions': vis(log), 'cur': cur}]
-    for sg in sc['events']:
+    late = sc.get('late')
+    full = sc['react']
+    if late:
+        s0, sg0 = late['where']
+        before = {k: dict(v) for k, v in full.items()}
+        before[str(s0)].pop(sg0, None)
+    for k, sg in enumerate(sc['events']):
+        if late:
+            sc = dict(sc, react=(before if k < late['after'] else full))
         new, log, offers, outcome = charts.expected_step(sc, cur, sg)
         # a callback runs in every state that registered one for the signal, until one does not decline
         steps.append({'actions': vis(log), 'cur': new, 'offers': [o for o in offers if o != -1 and sg in sc['react'][str(o)]]})
@@ -390,6 +406,14 @@ def scenarios(seed, tier, failed):
     total = 400 if tier == 'quick' else 20000
     for k in range(total):
         sc = gen(rnd)
+        if k % 5 == 3:
+            # a reaction that is registered only after the chart has already run some events
+            cands = [(int(s_), sg) for s_, r in sc['react'].items() for sg in r]
+            if cands and len(sc['events']) >= 2:
+                s_, sg = rnd.choice(cands)
+                sc['late'] = {'where': [s_, sg], 'after': rnd.randint(1, len(sc['events']) - 1)}
+                sc['events'] = [sg if rnd.random() < 0.5 else e for e in sc['events']]
+                sc['build'] = 'template'
         if k % 50 == 7:
             sc['build'] = 'factory'
             sc['nest_by_name'] = bool(k % 100 == 7)
